@@ -108,6 +108,10 @@ class ParquetFile:
             got = [t for f2, t, v in tree if f2 == fid]
             if got and got[0] != wt:
                 raise ParquetError('FileMetaData.%s has wire type %d, expected %d' % (nm, got[0], wt))
+        for fid, nm in ((2, 'schema'), (4, 'row_groups'), (5, 'key_value_metadata')):
+            got = [v for f2, t, v in tree if f2 == fid and t == 9]
+            if got and got[0][1] and got[0][0] != 12:      # (an empty list carries no element and says nothing)
+                raise ParquetError('FileMetaData.%s is a list of wire type %d, expected structs' % (nm, got[0][0]))
         try:
             self._interpret(tree)
         except ParquetError:
